@@ -158,6 +158,8 @@ def load_known(prop):
 
 def avoid_flags(prop):
     flags = set()
+    if os.environ.get('VERIF_NO_AVOID'):
+        return flags        # development: generate the excluded shapes too
     for finding in load_known(prop):
         if finding.get('status') == 'open':
             flags.update(finding.get('avoid', []))
